@@ -1570,6 +1570,12 @@ impl Canon {
                     (Type::CAA as u16, Some(&r.domain_name), Some(r.ttl), Some(r.class as u16))
                 }
             };
+        // C03: "each record's TTL/class/type accessors agree with its wire header": the printed ttl / class come
+        // from the struct fields; the public accessors must report the same (a disagreement becomes visible as
+        // an extra token that the model never prints)
+        let accessor_ttl = rr.get_ttl();
+        let accessor_class = rr.get_class().map(|c| c as u16);
+        let accessors_agree = accessor_ttl == ttl && accessor_class == class;
         let mut out = format!(
             "RR {} {} {} {} {}",
             type_,
@@ -1590,6 +1596,12 @@ impl Canon {
         for t in &w.toks {
             out.push(' ');
             out.push_str(t);
+        }
+        if !accessors_agree {
+            out.push_str(&format!(
+                " ACCESSOR-MISMATCH get_ttl={:?} get_class={:?}",
+                accessor_ttl, accessor_class
+            ));
         }
         out
     }
